@@ -268,7 +268,7 @@ class A(Adapter):
 
     # ---- policies --------------------------------------------------------------------------------------
     def policy_survive(self, s, env, rng, legal):
-        """Keep the stack flat and low: prefer line clears, then low height, few holes, little bumpiness."""
+        """Keep the stack flat and low: low aggregate height, few holes, little bumpiness, line clears."""
         if legal is None or not legal.any():
             return None
         occ = self._occ(s)
@@ -283,7 +283,8 @@ class A(Adapter):
                 heights = R - top
                 holes = int(sum((~g[top[c]:, c]).sum() for c in range(C)))
                 bump = int(np.abs(np.diff(heights)).sum())
-                score = (-k, int(heights.max()), holes, bump, int(heights.sum()), r, int(x))
+                # classic linear evaluation (aggregate height, holes, bumpiness, cleared lines); ties by index
+                score = (round(0.51 * float(heights.sum()) + 0.36 * holes + 0.18 * bump - 0.76 * k, 6), r, int(x))
                 if best is None or score < best:
                     best, best_a = score, [r, int(x)]
         return best_a
